@@ -8,7 +8,7 @@ TICKS = st.sampled_from([None, None, None, 333333, 250000, 90000000000])
 
 # date of tick 0: 2000-01-01 (default), or a run across the Unix epoch, through the end of February 1900 (no leap day),
 # through 29 Feb 2400, across the 32-bit time_t limit (2038-01-19 03:14:07)
-EPOCHS = st.sampled_from([None, None, None, None, None, [1969, 12, 31, 23, 58], [1900, 2, 28, 23, 50], [2400, 2, 28, 23, 0], [2038, 1, 19, 3, 10]])
+EPOCHS = st.sampled_from(hs.EPOCHS)
 
 ALL_KINDS = ["scale", "cb", "next", "prev", "lin", "step", "avg", "sum", "dfix", "dpull", "dpush"]
 
